@@ -420,6 +420,30 @@ def check_scalar_ladder(ctx):
         if len(t) == 1 and any(isinstance(x, ast.Return) and isinstance(x.value, ast.Constant) and x.value.value is False for x in t[0].body):
             # rejects when the dim is NOT a multi-axis specifier
             reject_tab, where = dim_table(t[0].test, loop[0].target.id), t[0]
+        else:
+            # any other straight-line spelling of one iteration (`if <variadic>: continue` + `return False`, nested ifs): walked per dim kind
+            def one_iteration(stmts, k_i):
+                for st_ in stmts:
+                    if isinstance(st_, ast.If):
+                        tv = dim_table(st_.test, loop[0].target.id)[k_i]
+                        if tv is None:
+                            return None
+                        r_ = one_iteration(st_.body if tv else st_.orelse, k_i)
+                        if r_ != "next":
+                            return r_
+                    elif isinstance(st_, ast.Continue):
+                        return "accept"
+                    elif isinstance(st_, ast.Return) and isinstance(st_.value, ast.Constant) and st_.value.value is False:
+                        return "reject"
+                    elif isinstance(st_, (ast.Pass,)) or (isinstance(st_, ast.Expr) and isinstance(st_.value, ast.Constant)):
+                        continue
+                    else:
+                        return None
+                return "next"
+
+            res_ = [one_iteration(loop[0].body, i_) for i_ in range(len(KINDS))]
+            if all(r_ in ("accept", "reject", "next") for r_ in res_):
+                reject_tab, where = [r_ == "reject" for r_ in res_], loop[0]
     else:
         # `if not all(<dim is variadic> for dim in dims): return False` / `... any(<dim is not variadic> ...)`
         for st in cs.body:
@@ -468,10 +492,22 @@ def check_scalar_ladder(ctx):
         raise AnalysisError("C15.3: the all-multi-axis test of _check_scalar has a form the rule does not recognise")
     last = cs.body[-1]
     txt = norm(last)
+    single_return = True
+    if where is not None and any(where is x_ for x_ in cs.body) and cs.body.index(where) < len(cs.body) - 2:
+        # the membership part is spelled with statements (`if dtypes is _any_dtype: return True` / a loop with `return True` / `return False`):
+        # read all of them together
+        tail_ = cs.body[cs.body.index(where) + 1:]
+        last = ast.Module(body=tail_, type_ignores=[])
+        txt = " ; ".join(norm(x_) for x_ in tail_)
+        single_return = False
     mem_calls = [c for c in ast.walk(last) if isinstance(c, ast.Call)]
     uses_prefix = any(isinstance(c.func, ast.Attribute) and c.func.attr == "startswith" and [norm(a) for a in c.args] == [kind] for c in mem_calls)
     substr = any((isinstance(c.func, ast.Attribute) and c.func.attr in ("search", "find", "count", "__contains__")) or norm(c.func) in ("re.search", "re.findall") for c in mem_calls) or \
         any(isinstance(x, ast.Compare) and isinstance(x.ops[0], ast.In) and norm(x.left) == kind for x in ast.walk(last))
+    if not single_return:
+        last = cs.body[-1]
+    if not substr and not uses_prefix and not single_return:
+        raise AnalysisError("C15.3: how _check_scalar decides the category membership of a scalar kind was not recognised")
     if substr or not uses_prefix:
         ctx.bad("C15.3", cs, last, f"category membership of a Python scalar is not decided by the dtype names *starting with* the kind (`{short(last, 90)}`): with a substring/regex "
                 "search 'uint8' contains 'int', so UInt categories would admit Python ints")
